@@ -40,7 +40,12 @@ type W struct {
 	// Payload: "" strings, "int" unique integers, "float" unique non-integral floats,
 	// "loopint" the counter variable of the producer's for loop (L2 only)
 	Payload string `json:"payload,omitempty"`
-	MutOp   string `json:"mut_op,omitempty"` // payload "mutint": how the producer updates its variable after each send
+	MutOp   string `json:"mut_op,omitempty"`
+	// CloneDrop (script level): everybody uses a `clone` of the channel object and the handle `new` returned is
+	// dropped; every GCEvery-th operation the fault "the collector runs now" is injected (verifsim.CollectNow). A
+	// channel is closed by close() only, never by the lifetime of one of its handles.
+	CloneDrop bool `json:"clone_and_drop,omitempty"`
+	GCEvery   int  `json:"gc_every,omitempty"` // payload "mutint": how the producer updates its variable after each send
 	// Nulls (script level): producer 0 also sends the value null, before each of its messages with an even index.
 	// null is a value like any other: it is delivered once, in order; a receiver cannot tell it from "closed and
 	// drained", the model can (the send is recorded as "null:p0-<k>", the receive as null).
@@ -168,6 +173,9 @@ func gen(r *verifsim.Rng, tier string) (any, hx.Sched) {
 		}
 		w.SharedProd = !w.ArrayPayload && w.Payload == "" && r.Intn(4) == 0
 		w.Nulls = !w.SharedProd && w.Payload != "loopint" && w.Payload != "mutint" && len(w.Producers) > 0 && r.Intn(6) == 0
+		if r.Intn(10) == 0 {
+			w.CloneDrop, w.GCEvery = true, verifsim.Pick(r, []int{1, 2, 3, 7})
+		}
 		if r.Intn(8) == 0 {
 			// other constructor forms: no argument, a negative number (a string or float argument is a type error)
 			// (the class treats everything but a non-negative int as "unbuffered")
@@ -257,6 +265,11 @@ func shrink(x any) []any {
 	if w.Nulls {
 		c := cp()
 		c.Nulls = false
+		out = append(out, c)
+	}
+	if w.CloneDrop {
+		c := cp()
+		c.CloneDrop = false
 		out = append(out, c)
 	}
 	if w.Payload != "" {
